@@ -288,11 +288,11 @@ Section ReplayProofs.
   Qed.
 
   Lemma fn_step_project proj after (fn : catalog -> gen -> catalog * gen * (tresult + ekind)) g :
-    fn_step fn g -> fn_step (fun cat g0 => project_in_txn projectf proj after (fn cat g0)) g.
+    fn_step fn g -> fn_step (fun cat g0 => project_in_txn projectf proj after cat (fn cat g0)) g.
   Proof.
     intros F c c' g' r Hc. cbv beta.
     destruct (fn c g) as [[c1 g1] r1] eqn:E. intro H.
-    apply project_in_txn_same in H. destruct H as [-> _]. eapply F; eauto.
+    apply project_in_txn_same in H. destruct H as [[->| ->] _]; [eapply F; eauto|apply cat_step_refl].
   Qed.
 
   Lemma fn_step_nogen {A} (f : catalog -> catalog * (A + ekind)) g :
@@ -623,19 +623,19 @@ Section ReplayProofs.
   (* a single write call that reports an error leaves the committed log and
      every open transaction (hence its log) exactly as they were *)
   Theorem failed_call_logs_nothing ds c ds' e :
-    single_write c -> ~ projected_in_session ds c ->
+    single_write c ->
     step ds c = (ds', RErr e) ->
     events (ds_cat ds') = events (ds_cat ds) /\ forall sid, routed ds' sid = routed ds sid.
   Proof.
-    intros SW NP H.
-    destruct (step_error_noop matchf applyf extractf projectf now ds c ds' e SW NP H) as [A B].
+    intros SW H.
+    destruct (step_error_noop matchf applyf extractf projectf now ds c ds' e SW H) as [A B].
     rewrite A. auto.
   Qed.
 
   (* failed calls and no-op writes, together *)
   Theorem failed_and_noop_log_nothing :
     (forall ds c ds' e,
-       single_write c -> ~ projected_in_session ds c -> step ds c = (ds', RErr e) ->
+       single_write c -> step ds c = (ds', RErr e) ->
        events (ds_cat ds') = events (ds_cat ds) /\ forall sid, routed ds' sid = routed ds sid) /\
     (forall c g h q s u sk li up afs now0 c' g' tr,
        txn_update matchf applyf extractf c g h q s u sk li up afs now0 = (c', g', inl tr) ->
